@@ -28,7 +28,7 @@ MANIFEST = {
             "code: harness built with -race drives the real Chain/DataAccess on in-memory pebble (N readers + one writer adding/removing "
             "blocks; concurrent GetBlockHeaders / GetBlockHeadersByHeights / GetTransactions / GetBlocksBetweenHeight compared as multisets "
             "with the sequential answer), certificate pool add/select/cleanup/upgrade, event publish/subscribe/close with live "
-            "subscribers, diffdb prefix views; torn (cache of 2, long removal runs of blocks with transactions: every block returned by "
+            "subscribers, diffdb prefix views incl. nested sibling views (state -> module -> store) derived concurrently; torn (cache of 2, long removal runs of blocks with transactions: every block returned by "
             "GetBlockByHeight/GetBlock/GetBlocksBetweenHeight/LastBlock must be byte-identical to a committed block, tip never nil); "
             "evclose/evquit (Close, Unsubscribe, Subscribe racing with Publish, consumers that stop reading before Close or unsubscribe "
             "themselves); syncfan (real sync.Syncer over loopback libp2p with 9 peers: blockSyncer.Sync's per-peer fan-out); each under a "
@@ -40,7 +40,7 @@ MANIFEST = {
             "all instances of a lock field are one lock class (the discipline forbids holding two of a class). Trusted: Coq "
             "kernel + vm_compute, translate/skeletons, Go race detector, harness, Python glue.",
 }
-SCENARIOS = ["cache", "bulk", "torn", "certpool", "events", "evclose", "evquit", "diffdb", "syncfan"]
+SCENARIOS = ["cache", "bulk", "torn", "certpool", "events", "evclose", "evquit", "diffdb", "diffnest", "syncfan"]
 
 
 def run_scenario(ck, binp, name, readers, ms, rounds, tag):
